@@ -25,7 +25,7 @@ Fixpoint zero_range (payload : bytes) (from to : Z) (i : Z) : bytes :=
 Definition nutter (payload : bytes) (dataoff : Z) : res bytes :=
   let off := dataoff - 4 in
   if (off <? 0) || (off + 4 >=? len payload) then Ok payload else
-  match rd payload (off + 3) with
+  match nth_error payload (Z.to_nat (off + 3)) with
   | None => Panic
   | Some size =>
     let endoff := off + 4 + size in
@@ -77,18 +77,18 @@ Fixpoint additional_loop (fuel : nat) (msg : bytes) (p : parser) (q : query) : r
     | (_, OutOfFuel) => OutOfFuel
     | (p1, Ok h) =>
       if negb (rh_type h =? 41) then
-        match p_skip_resource msg p1 secAr with
+        match p_skip_resource p1 secAr with
         | (p2, Ok _) => additional_loop f msg p2 q
         | (_, Err _) => Ok (q, false)
         | (_, Panic) => Panic
         | (_, OutOfFuel) => OutOfFuel
         end
       else
-        match p_opt_resource msg p1 with
-        | (_, Err _) => Ok (q, false)
-        | (_, Panic) => Panic
-        | (_, OutOfFuel) => OutOfFuel
-        | (_, Ok os) =>
+        match p_opt_resource p1 with
+        | Err _ => Ok (q, false)
+        | Panic => Panic
+        | OutOfFuel => OutOfFuel
+        | Ok os =>
           let q1 := mkQuery (q_id q) (q_class q) (q_type q) (q_rd q) (rh_class h mod 65536)
                             (q_name q) (q_peer q) (q_mac q) (q_payload q) in
           do q2 <- apply_opts os q1; Ok (q2, true)
@@ -110,9 +110,9 @@ Definition parse (payload : bytes) : res (query * bool) :=
     | (p1, Ok (name, typ, cls)) =>
       let h := p_hdr p0 in
       let q1 := mkQuery (h_id h) cls typ (has_bit (h_bits h) 256) 512 name None None payload in
-      do p2 <- skip_all (skip_all_fuel h secQ) (p_skip_question payload) p1;
-      do p3 <- skip_all (skip_all_fuel h secAn) (fun p => p_skip_resource payload p secAn) p2;
-      do p4 <- skip_all (skip_all_fuel h secNs) (fun p => p_skip_resource payload p secNs) p3;
+      do p2 <- skip_all (skip_all_fuel h secQ) p_skip_question p1;
+      do p3 <- skip_all (skip_all_fuel h secAn) (fun p => p_skip_resource p secAn) p2;
+      do p4 <- skip_all (skip_all_fuel h secNs) (fun p => p_skip_resource p secNs) p3;
       additional_loop (additional_fuel h) payload p4 q1
     end
   end.
@@ -153,3 +153,93 @@ Definition handle (pr : proto) (payload : bytes) (o : outcome) : res bytes :=
 (* payload handed to the upstream (C13) *)
 Definition upstream_payload (payload : bytes) : res bytes :=
   do '(q, _) <- parse payload; Ok (q_payload q).
+
+(* ---- the serve loop's size gate: udp.go / tcp.go "if qsize <= 14" ---- *)
+Inductive action := Reply (b : bytes) | Silence | CloseConn.
+Definition serve (pr : proto) (payload : bytes) (o : outcome) : res action :=
+  if len payload <=? 14 then Ok (match pr with UDP => Silence | TCP => CloseConn end)
+  else do b <- handle pr payload o; Ok (Reply b).
+
+(* ---- options of the first OPT record reached by query.parse (for the C13 spec) ---- *)
+Fixpoint find_opts_loop (fuel : nat) (msg : bytes) (p : parser) : res (list option_) :=
+  match fuel with
+  | O => OutOfFuel
+  | S f =>
+    match p_resource_header msg p secAr with
+    | (_, Err _) => Ok []
+    | (_, Panic) => Panic
+    | (_, OutOfFuel) => OutOfFuel
+    | (p1, Ok h) =>
+      if negb (rh_type h =? 41) then
+        match p_skip_resource p1 secAr with
+        | (p2, Ok _) => find_opts_loop f msg p2
+        | (_, Err _) => Ok []
+        | (_, Panic) => Panic
+        | (_, OutOfFuel) => OutOfFuel
+        end
+      else match p_opt_resource p1 with Ok os => Ok os | Err _ => Ok [] | Panic => Panic | OutOfFuel => OutOfFuel end
+    end
+  end.
+Definition find_opts (payload : bytes) : res (list option_) :=
+  match p_start payload with
+  | Err _ => Ok [] | Panic => Panic | OutOfFuel => OutOfFuel
+  | Ok p0 =>
+    match p_question payload p0 with
+    | (_, Err _) => Ok [] | (_, Panic) => Panic | (_, OutOfFuel) => OutOfFuel
+    | (p1, Ok _) =>
+      let h := p_hdr p0 in
+      do p2 <- skip_all (skip_all_fuel h secQ) p_skip_question p1;
+      do p3 <- skip_all (skip_all_fuel h secAn) (fun p => p_skip_resource p secAn) p2;
+      do p4 <- skip_all (skip_all_fuel h secNs) (fun p => p_skip_resource p secNs) p3;
+      find_opts_loop (additional_fuel h) payload p4
+    end
+  end.
+
+(* an option that carries a client address: ECS, family 1 or 2, >= 8 bytes, < 256 bytes *)
+Definition is_addr_ecs (o : option_) : bool :=
+  (o_code o =? 8) && (8 <=? len (o_data o)) &&
+  match o_data o with _ :: fam :: _ => (fam =? 1) || (fam =? 2) | _ => false end.
+
+(* C13 boolean spec on (client payload, payload the upstream received):
+   no address-carrying ECS option is left, and every byte that differs lies
+   inside the span (4-byte option header + data) of an address-carrying ECS
+   option of the original. *)
+Definition in_span (os : list option_) (i : Z) : bool :=
+  existsb (fun o => is_addr_ecs o && (o_off o - 4 <=? i) && (i <? o_off o + len (o_data o))) os.
+Fixpoint diff_inside (os : list option_) (a b : bytes) (i : Z) : bool :=
+  match a, b with
+  | [], [] => true
+  | x :: a', y :: b' => ((x =? y) || in_span os i) && diff_inside os a' b' (i + 1)
+  | _, _ => false
+  end.
+Definition c13_ok (payload upsaw : bytes) : bool :=
+  match find_opts payload, find_opts upsaw with
+  | Ok os, Ok os' =>
+      (* premise of C13: ECS options of at most 255 bytes (RFC 7871) *)
+      if existsb (fun o => is_addr_ecs o && (255 <? len (o_data o))) os then true
+      else negb (existsb is_addr_ecs os') && diff_inside os payload upsaw 0
+  | _, _ => false
+  end.
+
+(* C01 boolean spec on one exchange: reply observed for query payload with outcome o *)
+Definition eq_except_tc (a b : bytes) : bool :=
+  match a, b with
+  | a0 :: a1 :: a2 :: ar, b0 :: b1 :: b2 :: br =>
+      (a0 =? b0) && (a1 =? b1) && (Z.lor a2 2 =? Z.lor b2 2) && beq_bytes ar br
+  | _, _ => beq_bytes a b
+  end.
+Definition c01_ok (pr : proto) (payload : bytes) (o : outcome) (reply : bytes) : bool :=
+  match parse payload with
+  | Ok (q, _) =>
+    match o with
+    | Up msg =>
+      if (len msg <=? 0) || (len msg >? maxTCPSize) then beq_bytes reply (match pr with UDP => servfail q | TCP => tcp_frame (servfail q) end)
+      else match pr with
+           | UDP => (len reply <=? len msg) && eq_except_tc (takez (len reply) msg) reply
+                    && c05_udp_ok (q_msgsize q) (len msg) (len reply) (tc_bit reply) (tc_bit msg)
+           | TCP => beq_bytes reply (tcp_frame msg)
+           end
+    | _ => beq_bytes reply (match pr with UDP => servfail q | TCP => tcp_frame (servfail q) end)
+    end
+  | _ => false
+  end.
